@@ -26,7 +26,8 @@ REQUIRED_THEOREMS = [
     "extract_field_consistent", "view_field_consistent", "copy_apply_consistent", "mapFrames_applyTo",
     "inv_step", "frames_immutable", "world_refines_store", "world_run_refines", "extract_time_range_world",
     "extract_field_world", "apply_world", "getSlice_eq", "gatherInto_spec", "gatherInto_too_long",
-    "collInfo_cases",
+    "collInfo_cases", "allwf_step", "applyTo_some_srun", "world_refines_store_all", "world_run_refines_all",
+    "world_reads_appended",
 ]
 RULE = ("adaptive random operation sequences of length 5-40 over newField/setField/newStore/setMode/"
         "start_writing/append/end_writing/clear/read/items/slice/extract_time_range/extract_field/view_field/"
